@@ -45,10 +45,12 @@ structure SumState where
 /-- `SummarySink::matched` -/
 def sumMatched (sc : SCfg) (c : SumCfg) (find : Oracle) (st : SumState) (buf : Bytes) (rs re : Nat) :
     SumState × Bool :=
+  -- when inverting, every call reports lines without a match: count the calls
+  let isMultiLine := sc.multiLine && !sc.invert
   let sinkMatchCount :=
-    if st.stats.isNone && !sc.multiLine then 1
+    if st.stats.isNone && !isMultiLine then 1
     else (findIterInContext sc find buf rs re).length
-  let mc := if sc.multiLine then st.matchCount + sinkMatchCount else st.matchCount + 1
+  let mc := if isMultiLine then st.matchCount + sinkMatchCount else st.matchCount + 1
   match st.stats with
   | some s =>
     let s := { s with matchCount := s.matchCount + sinkMatchCount
